@@ -1,22 +1,125 @@
-(* C10 — Branch and HEAD state machine.
-   Part 1: the branch-file codec and HEAD's regexp gate.  Part 2 (refinement of
-   every branch/switch/update-ref operation to the abstract machine) is
-   appended when BranchFacts.v is built. *)
+(* C10 — Branch and HEAD state machine: refinement of every branch / switch /
+   update-ref operation to an abstract machine (current branch, name -> commit). *)
 From Coq Require Import Strings.String Strings.Byte.
 From Coq Require Import List NArith.
-From Goit Require Import Bytes Obj Regex GoRegex Refs ObjFacts RegexFacts.
+From Goit Require Import Bytes Obj Regex GoRegex Refs World Repo ObjFacts RegexFacts BranchFacts.
 Import ListNotations.
 
-(* a branch file written for a 20-byte id reads back as that id *)
-Theorem C10_branch_file_roundtrip : forall id,
-  length id = 20 -> parse_ref (render_ref id) = Some id.
+(* the abstract state is (w_head w, w_refs w); [frame] says index, objects,
+   configs and work tree are untouched.  In each theorem: if the abstract
+   operation is defined the command succeeds and lands exactly on its result;
+   otherwise it is refused with an EMPTY trace and the world is unchanged. *)
+
+(* creating a branch adds exactly one branch at the current HEAD commit;
+   duplicate or unsafe names are refused *)
+Theorem C10_branch_create : forall e name w x w' o tr,
+  w_inited w = true -> ctx_of w = Some x ->
+  step (ACmd e (CBranch [name] false [] [])) w = (w', o, tr) ->
+  match a_branch name (abs w) with
+  | Some s' => o = OOk [] /\ abs w' = s' /\ frame w w'
+  | None => o = OErr /\ tr = [] /\ w' = w
+  end.
+Proof. exact branch_create_refines. Qed.
+
+Theorem C10_branch_create_spec : forall name s s',
+  a_branch name s = Some s' ->
+  fst s' = fst s /\ am_get (snd s) name = None /\ am_get (snd s') name = am_get (snd s) (fst s) /\
+  (forall n, n <> name -> am_get (snd s') n = am_get (snd s) n) /\ length (snd s') = S (length (snd s)).
+Proof. exact a_branch_spec. Qed.
+
+(* deleting removes exactly that branch; refused for the current branch or an unknown name *)
+Theorem C10_branch_delete : forall e d w x w' o tr,
+  w_inited w = true -> ctx_of w = Some x -> is_nil d = false -> blogs_cover_refs w ->
+  step (ACmd e (CBranch [] false [] d)) w = (w', o, tr) ->
+  match a_delete d (abs w) with
+  | Some s' => o = OOk [] /\ abs w' = s' /\ frame w w'
+  | None => o = OErr /\ tr = [] /\ w' = w
+  end.
+Proof. exact branch_delete_refines. Qed.
+
+(* renaming gives the current branch a new name with the same commit; HEAD follows *)
+Theorem C10_branch_rename : forall e new w x w' o tr,
+  w_inited w = true -> ctx_of w = Some x -> is_nil new = false -> blogs_cover_refs w ->
+  step (ACmd e (CBranch [] false new [])) w = (w', o, tr) ->
+  match a_rename new (abs w) with
+  | Some s' => o = OOk [] /\ abs w' = s' /\ frame w w'
+  | None => o = OErr /\ tr = [] /\ w' = w
+  end.
+Proof. exact branch_rename_refines. Qed.
+
+Theorem C10_switch : forall e a w x w' o tr,
+  w_inited w = true -> ctx_of w = Some x -> refs_commits_ok w ->
+  step (ACmd e (CSwitch [a] [])) w = (w', o, tr) ->
+  match a_switch a (abs w) with
+  | Some s' => o = OOk [] /\ abs w' = s' /\ frame w w'
+  | None => o = OErr /\ tr = [] /\ w' = w
+  end.
+Proof. exact switch_refines. Qed.
+
+Theorem C10_switch_create : forall e name w x w' o tr,
+  w_inited w = true -> ctx_of w = Some x -> is_nil name = false ->
+  step (ACmd e (CSwitch [] name)) w = (w', o, tr) ->
+  match a_switch_create name (abs w) with
+  | Some s' => o = OOk [] /\ abs w' = s' /\ frame w w'
+  | None => o = OErr /\ tr = [] /\ w' = w
+  end.
+Proof. exact switch_create_refines. Qed.
+
+(* update-ref sets the named existing branch to the given existing commit
+   (and, as the program does, makes HEAD name that branch) *)
+Theorem C10_update_ref : forall e r h w x w' o tr,
+  w_inited w = true -> ctx_of w = Some x ->
+  step (ACmd e (CUpdateRef [r; h])) w = (w', o, tr) ->
+  match a_update_ref (commit_loads w) r h (abs w) with
+  | Some s' => o = OOk [] /\ abs w' = s' /\ frame w w'
+  | None => o = OErr /\ tr = [] /\ w' = w
+  end.
+Proof. exact update_ref_refines. Qed.
+
+(* on every state reachable from an empty directory a refused branch, switch or
+   update-ref command — whatever its arguments — changes nothing *)
+Theorem C10_refused_changes_nothing : forall h e c w' tr,
+  branch_family c -> refs_commits_ok (run h w_empty) ->
+  step (ACmd e c) (run h w_empty) = (w', OErr, tr) -> tr = [] /\ w' = run h w_empty.
+Proof. exact refused_branch_ops_unchanged_reachable. Qed.
+
+(* `branch --list` and `rev-parse` report exactly the stored state *)
+Theorem C10_list_reports_state : forall e w x,
+  w_inited w = true -> ctx_of w = Some x ->
+  step (ACmd e (CBranch [] true [] [])) w = (w, OOk (branch_listing w), []).
+Proof. exact branch_list_reports. Qed.
+
+Theorem C10_rev_parse_reports_state : forall e args w x,
+  w_inited w = true -> ctx_of w = Some x ->
+  step (ACmd e (CRevParse args)) w
+  = (w, match rev_parse_out w args with Some out => OOk out | None => OErr end, []).
+Proof. exact rev_parse_reports. Qed.
+
+(* the branch list stays sorted (the binary search over it relies on that) and
+   every branch has its log, after every history *)
+Theorem C10_refs_sorted : forall h, refs_sorted (run h w_empty).
+Proof. exact refs_sorted_run. Qed.
+Theorem C10_logs_cover_branches : forall h, blogs_cover_refs (run h w_empty).
+Proof. exact blogs_cover_refs_run. Qed.
+
+(* codecs of the two files that hold this state *)
+Theorem C10_head_file_roundtrip : forall n,
+  valid_branch_name n = true -> ~ In c_nl n -> parse_head (render_head n) = Some n.
+Proof. exact parse_head_render. Qed.
+Theorem C10_branch_file_roundtrip : forall id, length id = 20 -> parse_ref (render_ref id) = Some id.
 Proof. exact read_hash_hex. Qed.
 
-(* the HEAD text written for a branch name passes NewHead's regexp gate (the
-   pattern REGENERATED from internal/store/head.go) *)
-Theorem C10_head_line_accepted : forall n,
-  n <> [] -> ~ In x0a n -> re_search re_headRegexp (str "ref: refs/heads/" ++ n) = true.
-Proof. exact head_line_accepts. Qed.
-
+Print Assumptions C10_branch_create.
+Print Assumptions C10_branch_create_spec.
+Print Assumptions C10_branch_delete.
+Print Assumptions C10_branch_rename.
+Print Assumptions C10_switch.
+Print Assumptions C10_switch_create.
+Print Assumptions C10_update_ref.
+Print Assumptions C10_refused_changes_nothing.
+Print Assumptions C10_list_reports_state.
+Print Assumptions C10_rev_parse_reports_state.
+Print Assumptions C10_refs_sorted.
+Print Assumptions C10_logs_cover_branches.
+Print Assumptions C10_head_file_roundtrip.
 Print Assumptions C10_branch_file_roundtrip.
-Print Assumptions C10_head_line_accepted.
